@@ -39,6 +39,28 @@ theorem anyIn_eq_false {n : Nat} {f : Nat → Bool} : anyIn n f = false ↔ ∀ 
       obtain ⟨j, hj, hf⟩ := anyIn_eq_true.mp hc
       rw [h j hj] at hf; cases hf
 
+/-- the operators / index expressions the theorems need (obligations on the extracted parameters) -/
+theorem backFlag_eq (i : Inst) (s : State) (a : Nat) :
+    backFlag i s a = (decide (a < i.K) && !(s.avail a)) := by
+  cases h : s.avail a <;> simp [backFlag, Params.mdcpdpBackDepotCmp, Params.mdcpdpBackAvailCmp, Cmp.evalNat, h]
+theorem cnt_zero_eq_not_any (n : Nat) (av : Nat → Bool) : decide (cnt n av = 0) = !(anyIn n av) := by
+  cases h : anyIn n av with
+  | true =>
+    obtain ⟨j, hj, hjav⟩ := anyIn_eq_true.mp h
+    have : 0 < cnt n av := cnt_pos.mpr ⟨j, hj, hjav⟩
+    simp; omega
+  | false => simp [cnt_eq_zero.mpr (anyIn_eq_false.mp h)]
+@[simp] theorem lastDepotOf_eq (i : Inst) (av : Nat → Bool) : lastDepotOf i av = !(anyIn i.K av) := by
+  simp only [lastDepotOf, Params.mdcpdpLastDepotCmp, Cmp.evalNat]; exact cnt_zero_eq_not_any _ _
+@[simp] theorem doneOf_eq (i : Inst) (av : Nat → Bool) : doneOf i av = !(anyIn i.N av) := by
+  simp only [doneOf, Params.mdcpdpDoneCmp, Cmp.evalNat]; exact cnt_zero_eq_not_any _ _
+@[simp] theorem pairOff_eq (i : Inst) : i.pairOff = i.h := by simp [Inst.pairOff, Inst.h, Params.mdcpdpPairDiv]
+@[simp] theorem openZero_eq (i : Inst) (cur a : Nat) :
+    openZero i cur a = (i.openMode && decide (a < i.K) && decide (i.K ≤ cur)) := by
+  simp [openZero, Params.mdcpdpOpenToCmp, Params.mdcpdpOpenFromCmp, Cmp.evalNat]
+/-- the bundled generator does not emit one capacity per depot (obligation on `Params.mdcpdpGenCapPerDepot`) -/
+theorem genCapLen_eq (numDepot : Nat) : genCapLen numDepot = 1 := by simp [genCapLen, Params.mdcpdpGenCapPerDepot]
+
 theorem mod_cases (x n : Nat) (hx : x < 2 * n) : x % n = if x < n then x else x - n := by
   split
   · exact Nat.mod_eq_of_lt (by assumption)
@@ -51,14 +73,16 @@ theorem mod_cases (x n : Nat) (hx : x < 2 * n) : x % n = if x < n then x else x 
 @[simp] theorem step_avail (i : Inst) (s : State) (a : Nat) :
     (step i s a).avail = upd s.avail a false := rfl
 @[simp] theorem step_td (i : Inst) (s : State) (a : Nat) :
-    (step i s a).toDeliver = upd s.toDeliver ((a + i.h) % i.N) true := rfl
+    (step i s a).toDeliver = upd s.toDeliver ((a + i.h) % i.N) true := by
+  simp [step]
 @[simp] theorem step_carry (i : Inst) (s : State) (a : Nat) :
     (step i s a).carry =
       s.carry + (if i.K ≤ a ∧ a < i.pd then 1 else 0) - (if i.pd ≤ a then 1 else 0) := rfl
 @[simp] theorem step_depot (i : Inst) (s : State) (a : Nat) :
     (step i s a).depot = if backFlag i s a then a else s.depot := rfl
 @[simp] theorem step_done (i : Inst) (s : State) (a : Nat) :
-    (step i s a).done = !(anyIn i.N (upd s.avail a false)) := rfl
+    (step i s a).done = !(anyIn i.N (upd s.avail a false)) := by
+  simp [step]
 theorem step_mask (i : Inst) (s : State) (a : Nat) :
     (step i s a).mask = maskOf i (backFlag i s a) (step i s a).avail (step i s a).toDeliver
       (step i s a).carry (step i s a).depot (step i s a).done := rfl
@@ -112,7 +136,7 @@ theorem mask_customer {i : Inst} {s : State} (hwf : WF i) (hi : Inv i s) {a : Na
     simp at hm; omega
   · rw [hmk] at hm
     have hnk : ¬ a < i.K := by omega
-    simp only [maskOf, capFlagOf_eq, carryFlagOf_eq, hnk, if_false, Bool.and_eq_true, Bool.not_eq_true'] at hm
+    simp only [maskOf, capFlagOf_eq, carryFlagOf_eq, lastDepotOf_eq, hnk, if_false, Bool.and_eq_true, Bool.not_eq_true'] at hm
     by_cases hpd : a < i.pd
     · simp only [hpd, if_true, Bool.and_eq_true, Bool.not_eq_true', decide_eq_false_iff_not] at hm
       exact ⟨hm.1.1.1, hm.1.1.2, fun _ => by omega⟩
@@ -125,7 +149,7 @@ theorem mask_depot_ne {i : Inst} {s : State} (_hwf : WF i) (hi : Inv i s) {a : N
   rcases hi.phase with ⟨_, hav⟩ | ⟨b, hmk, _, _⟩
   · exact hav a
   · rw [hmk] at hm
-    simp only [maskOf, capFlagOf_eq, carryFlagOf_eq, hK, if_true, h0, if_false, Bool.and_eq_true] at hm
+    simp only [maskOf, capFlagOf_eq, carryFlagOf_eq, lastDepotOf_eq, hK, if_true, h0, if_false, Bool.and_eq_true] at hm
     exact hm.1.1.1.1
 
 /-- any depot in the mask is entered with an empty vehicle -/
@@ -137,7 +161,7 @@ theorem mask_depot_carry {i : Inst} {s : State} (hwf : WF i) (hi : Inv i s) {a :
   · rw [hmk] at hm
     by_cases h0 : a = 0
     · subst h0
-      simp only [maskOf, capFlagOf_eq, carryFlagOf_eq, hK, if_true, Bool.or_eq_true, Bool.and_eq_true, Bool.not_eq_true',
+      simp only [maskOf, capFlagOf_eq, carryFlagOf_eq, lastDepotOf_eq, hK, if_true, Bool.or_eq_true, Bool.and_eq_true, Bool.not_eq_true',
         decide_eq_false_iff_not] at hm
       rcases hm with hm | hd
       · omega
@@ -152,14 +176,14 @@ theorem mask_depot_carry {i : Inst} {s : State} (hwf : WF i) (hi : Inv i s) {a :
           have := hall (i.K + i.h + j) (by have := hwf.even; omega)
           simp [this]
         rw [hi.carryEq, this]; rfl
-    · simp only [maskOf, capFlagOf_eq, carryFlagOf_eq, hK, if_true, h0, if_false, Bool.and_eq_true, Bool.not_eq_true',
+    · simp only [maskOf, capFlagOf_eq, carryFlagOf_eq, lastDepotOf_eq, hK, if_true, h0, if_false, Bool.and_eq_true, Bool.not_eq_true',
         decide_eq_false_iff_not] at hm
       omega
 
 /-- a return (`back_flag`) can only be a return to node 0 -/
 theorem back_is_zero {i : Inst} {s : State} (hwf : WF i) (hi : Inv i s) {a : Nat}
     (hm : s.mask a = true) (hb : backFlag i s a = true) : a = 0 := by
-  simp only [backFlag, Bool.and_eq_true, decide_eq_true_eq, Bool.not_eq_true'] at hb
+  simp only [backFlag_eq, Bool.and_eq_true, decide_eq_true_eq, Bool.not_eq_true'] at hb
   by_cases h0 : a = 0
   · exact h0
   · have := mask_depot_ne hwf hi hb.1 h0 hm
@@ -275,7 +299,7 @@ theorem inv_step {i : Inst} {s : State} (hwf : WF i) (hi : Inv i s) {a : Nat} (h
     · rcases hi.phase with ⟨hmk, _⟩ | ⟨_, _, h0, _⟩
       · rw [hmk] at hm; simp at hm; omega
       · exact h0
-  refine ⟨hdep, ?_, ?_, ?_, ?_, ?_, rfl, Or.inr ⟨backFlag i s a, ?_, hav0, ?_⟩⟩
+  refine ⟨hdep, ?_, ?_, ?_, ?_, ?_, by simp, Or.inr ⟨backFlag i s a, ?_, hav0, ?_⟩⟩
   · intro j hj
     rw [step_td]
     exact td_step_low s (hi.tdLow j hj)
@@ -319,7 +343,7 @@ theorem inv_step {i : Inst} {s : State} (hwf : WF i) (hi : Inv i s) {a : Nat} (h
     refine ⟨by rw [step_carry]; simp only [hK, hP, if_false]; omega, ?_⟩
     intro hnd
     -- the return was offered in an unfinished state: some depot is still unvisited
-    simp only [backFlag, Bool.and_eq_true, decide_eq_true_eq, Bool.not_eq_true'] at hb
+    simp only [backFlag_eq, Bool.and_eq_true, decide_eq_true_eq, Bool.not_eq_true'] at hb
     have hsame : upd s.avail 0 false = s.avail := by
       funext j; simp only [upd_apply]; split
       · subst_vars; exact hb.2.symm
@@ -330,7 +354,7 @@ theorem inv_step {i : Inst} {s : State} (hwf : WF i) (hi : Inv i s) {a : Nat} (h
     · rw [hav 0] at hb; cases hb.2
     · rw [hmk] at hm
       have hsd : s.done = false := by rw [hi.doneEq]; exact hnd
-      simp only [maskOf, capFlagOf_eq, carryFlagOf_eq, (by omega : 0 < i.K), if_true, hsd, Bool.or_false, Bool.and_eq_true,
+      simp only [maskOf, capFlagOf_eq, carryFlagOf_eq, lastDepotOf_eq, (by omega : 0 < i.K), if_true, hsd, Bool.or_false, Bool.and_eq_true,
         Bool.not_eq_true', Bool.not_eq_false'] at hm
       simpa using hm.1.2
 
